@@ -444,7 +444,12 @@ class Lock:
         self._locked = False
 
     def acquire(self, blocking=True, timeout=-1):
-        s = _s()
+        s = SCHED
+        if s is None:  # outside an execution there is a single thread: a plain flag
+            if self._locked:
+                raise HarnessError("lock already held outside an execution")
+            self._locked = True
+            return True
         s.point("lock")
         if self._locked:
             if not blocking:
@@ -478,7 +483,11 @@ class RLock:
         self._count = 0
 
     def acquire(self, blocking=True, timeout=-1):
-        s = _s()
+        s = SCHED
+        if s is None:  # outside an execution there is a single thread: only the recursion count matters
+            self._owner = "main"
+            self._count += 1
+            return True
         me = s.current
         if self._owner is me:
             self._count += 1
